@@ -26,6 +26,7 @@ type HarnessSpec struct {
 	MaxSteps   int
 	Native     string // native replay function ("" = the harness itself)
 	NoReplay   bool   // violations of this harness are confirmed by Native only
+	Race       bool   // replay under the race detector; a reported data race reproduces the violation
 	Bounds     map[string]any
 }
 
@@ -278,7 +279,7 @@ func (c *checkCtx) replay(h HarnessSpec, v gosym.Violation) (bool, string, strin
 	if h.Native != "" {
 		fn = h.Native
 	}
-	in := map[string]any{"harness": fn, "package": h.Pkg, "label": v.Label, "inputs": v.Inputs, "message": v.Msg, "position": v.Pos, "notes": v.Notes}
+	in := map[string]any{"race": h.Race, "harness": fn, "package": h.Pkg, "label": v.Label, "inputs": v.Inputs, "message": v.Msg, "position": v.Pos, "notes": v.Notes}
 	b, _ := json.MarshalIndent(in, "", " ")
 	os.WriteFile(filepath.Join(dir, "inputs.json"), b, 0o644)
 	cmd := fmt.Sprintf("#!/bin/sh\n# re-runs the counterexample natively against /repo's working tree\nexec %s/bin/verif replay %s\n", verifDir(), dir)
@@ -299,6 +300,7 @@ func nativeReplay(dir, work string) (bool, string) {
 		Harness string `json:"harness"`
 		Package string `json:"package"`
 		Label   string `json:"label"`
+		Race    bool   `json:"race"`
 	}
 	json.Unmarshal(b, &in)
 	if work == "" {
@@ -349,11 +351,19 @@ func TestVerifReplay(t *testing.T) {
 	ovb, _ := json.Marshal(map[string]any{"Replace": replace})
 	ovPath := filepath.Join(work, "overlay.json")
 	os.WriteFile(ovPath, ovb, 0o644)
-	cmd := exec.Command("timeout", "300", "go", "test", "-tags", "verif", "-overlay", ovPath, "-vet=off", "-count=1", "-run", "^TestVerifReplay$", "./"+in.Package)
+	args := []string{"600", "go", "test", "-tags", "verif", "-overlay", ovPath, "-vet=off", "-count=1", "-run", "^TestVerifReplay$"}
+	if in.Race {
+		args = append(args, "-race")
+	}
+	args = append(args, "./"+in.Package)
+	cmd := exec.Command("timeout", args...)
 	cmd.Dir = repoDir
 	cmd.Env = append(os.Environ(), "GOFLAGS=-mod=mod", "GOPROXY=off", "GOSUMDB=off", "GOTOOLCHAIN=local", "VERIF_REPLAY="+filepath.Join(dir, "inputs.json"))
 	outb, _ := cmd.CombinedOutput()
 	out := string(outb)
+	if in.Race && strings.Contains(out, "WARNING: DATA RACE") {
+		return true, out
+	}
 	if strings.HasPrefix(in.Label, "PANIC:") {
 		return strings.Contains(out, "VERIF_PANIC"), out
 	}
